@@ -73,8 +73,8 @@ def gen_plan(seed, tier="quick"):
     if mode < 0.25:
         ns = r.randrange(1500, 2 * nbatch)                       # shorter than one/two batches
     elif mode < 0.5:
-        k = r.randrange(1, 8)
-        ns = max(1500, k * stride + nbatch + r.choice([-2, -1, 0, 1, 2, T, -T, stride // 2]))  # around batch ends
+        k = r.choice([1, 1, 1, 2, 2, 3, r.randrange(1, 8)])      # few batches: where surplus workers and last-batch special cases live
+        ns = max(1500, k * stride + nbatch + r.choice([-2, -1, -1, 0, 0, 0, 1, 1, 2, T, -T, stride // 2]))  # around batch ends (0: the last batch is exactly one batch long)
     else:
         ns = r.randrange(1500, 40000)
     ns = min(ns, 40000)
